@@ -57,7 +57,11 @@ class OggSpeexInfo(StreamInfo):
         if not page.first:
             raise OggSpeexHeaderError(
                 "page has ID header, but doesn't start a stream")
+        if len(page.packets[0]) < 56:
+            raise OggSpeexHeaderError("header packet too short")
         self.sample_rate = cdata.uint_le(page.packets[0][36:40])
+        if self.sample_rate == 0:
+            raise OggSpeexHeaderError("sample rate can't be zero")
         self.channels = cdata.uint_le(page.packets[0][48:52])
         self.bitrate = max(0, cdata.int_le(page.packets[0][52:56]))
         self.serial = page.serial
